@@ -1,9 +1,9 @@
 #!/bin/bash
-# usage: sweep.sh <tier> <seed>...   : runs every check for each seed, evidence redirected to a scratch dir, prints one line per run
+# usage: [CHECKS="C01 C02"] sweep.sh <tier> <seed>...   : runs every check for each seed, evidence redirected to a scratch dir, prints one line per run
 TIER=$1; shift
 OUT=$(mktemp -d /tmp/vsweep-$$-XXXX)
 for seed in "$@"; do
-  for p in C01 C02 C03 C04 C05 C06 C07 C08 C09 C10 C11 C12 C13 C14 C15 C16 C17 C18 C19 C20; do
+  for p in ${CHECKS:-C01 C02 C03 C04 C05 C06 C07 C08 C09 C10 C11 C12 C13 C14 C15 C16 C17 C18 C19 C20}; do
     VERIF_EVID=$OUT/evid_$seed VERIF_SEED=$seed /venv/bin/python -m vlib.run $p --tier $TIER > $OUT/$p.$seed.log 2>&1
     rc=$?
     echo "seed=$seed $p rc=$rc $(tail -1 $OUT/$p.$seed.log | cut -c1-160)"
